@@ -16,6 +16,12 @@ CHECKS = {
  "C10": dict(section="6/C10", technique=TLA + "trace validation: listener traces of the four TD learners are validated event by event against the update-rule machine of spec/C10_TD.tla, plus exhaustive MC of all experience histories for boundedness",
    text="TLC (MC) explores every experience history to depth 8-9 of small proper MDPs for all four learners with the boundedness / absorbing-zero invariants; (trace mode) each recorded (s,a,r,ns,na) event of real training runs must be an enabled Step with the MDP's transition and reward, the written entry must equal the rule applied to the pre-state within the derived rounding bound, and Finish judges the returned Q-table (equals the fold) and policy (uniform over maximal-Q actions at visited states, all available actions elsewhere).",
    note="Fixed point 1/65536 with error bound n units after n updates (non-expansion for step sizes in [0,1]); expected SARSA with temperature>0 only range-checked (counted); trainings longer than 120 steps validated as a prefix. Trusted: TLC, the recorder attached through the repository's TDLearningEventListener."),
+ "C02": dict(section="6/C02", technique=TLA + "spec->code replay: TLC runs the statement-by-statement evaluation machine of spec/C02_PolicyEval.tla against the exact oracle and emits exact values, action values, occupancies and initial value for every (instance, policy), compared entry-wise with TabularPolicy.evaluate_on",
+   text="TLC enumerates (instance, stochastic policy) pairs (all policies over the weight menu when few), runs the reference machine that mirrors the evaluator one statement per action, and checks MachineMatchesOracle, Bellman, NegInfIffNegativeClass (closed classes by subset enumeration), OccupancyFlow and Duality; the emitted exact results are compared entry-wise (+-inf exactly, finite within 1e-9 relative) with evaluate_on on seven MDP representations and several policy constructions (from_state_action_lists, to_tabular, from_dict).",
+   note="<=3 non-absorbing states, weights from {0,1/3,1/2,2/3,1}. Action values at explicitly absorbing states and occupancy at implicitly absorbing states are DRIFT-level. Trusted: TLC, projection code; every third record cross-checked against an independent Fraction implementation."),
+ "C17": dict(section="6/C17", technique=TLA + "trace validation of RMAX training runs recorded through RMAXEventListener against the bookkeeping / optimistic-model machine of spec/C17_RMax.tla, plus exhaustive MC of all experience histories on tiny MDPs",
+   text="TLC (MC) explores every experience history of tiny MDPs for thresholds 1-2 with Bookkeeping, ModelIsReal, NeverAboveVmax, UnknownExactlyVmax, KnownBellman invariants and ModelFrozen / QMonotone action properties; (trace mode) every recorded step of real RMAX.train_on runs must be a real transition with the MDP's reward, counts follow the first-m-samples rule, and the returned Q-values / policy are judged clause by clause (<= Vmax, unknown pairs exactly Vmax, empirical Bellman residual within tolerance, greedy policy).",
+   note="Logged values are scaled integers with derived tolerances; exact optimistic fixed point only for <=3 non-absorbing states; action selection is DRIFT-level. Trusted: TLC, the recording listener."),
 }
 NOT_APPLICABLE = {
  "C19": "soft Bellman fixed point needs exp/log over reals; TLA+/TLC has bounded integers only (DESIGN.md section 10)",
